@@ -124,6 +124,7 @@ type Ctx struct {
 	Res      *Result
 	Replay   *Violation // non-nil: re-execute just this case and describe it
 	Verbose  bool
+	Retries  int     // checks whose harness talks over real sockets allow a diverged execution to be re-run this often
 	Claims   *Claims // shared claim table (nil when not sharded)
 	ordinal  int
 }
